@@ -1,7 +1,7 @@
 """C17 -- Taylor-expansion change of variables (symbolic, level P) and inversion (run-time contracts, level B) are exact."""
 from vf.common import Report, finish, SEED
 from vf.rtc import runner
-from contracts import taylor_rt as T, taylor_rot_sx
+from contracts import taylor_rt as T, taylor_rot_sx, taylor_inv_sx
 
 
 def main(tier):
@@ -9,6 +9,7 @@ def main(tier):
     nseed = 3 if tier == 'quick' else 16
     runner.run(rep, 'Taylor::rotate-and-invert-contract', T.w_rotinv, [(d, tier, SEED * 100 + s) for d in (3, 2) for s in range(nseed)], 'onsager/PowerExpansion.py::Taylor3D.rotatedirections')
     taylor_rot_sx.run_all(rep, tier)      # change of variables: polynomial identity for a fully symbolic matrix and symbolic coefficients, every (n, l) of the precondition (level P)
+    taylor_inv_sx.run_all(rep, tier)      # inversion: the real inv run on symbolic coefficients, products reduced modulo <|u|^2-1, D det-1>, per enumerated structure (level S)
     from vf import extract
     for q in ('Taylor3D.rotatedirections', 'Taylor3D.rotatecoeff', 'Taylor3D.rotate', 'Taylor3D.irotate', 'Taylor3D.inversecoeff', 'Taylor3D.inv', 'Taylor2D.rotatedirections'):
         try:
